@@ -125,6 +125,7 @@ def run(ctx):
     in_scope = [(fi, c, f) for fi, c, f in sites if not fi.module.name.startswith("pyxform.validators.updater")]
     for fi, c, f in in_scope:
         check_temp_pairing(r1, fi, c, f)
+    validated_file_obligations(ctx, r1, "C18.R1")
     for fi, c, f in sites:
         if (fi, c, f) not in in_scope:
             r1.note(f"out of scope (not reachable from convert()/CLI): {fi.fq}")
@@ -541,6 +542,26 @@ def run(ctx):
         r7.check(okd, f"decode_stream[{desc}]", "returns text", ds.loc(), why_fail=why)
     rules.append(r7)
     return rules
+
+
+def validated_file_obligations(ctx, rule, rid):
+    """The temp file of Survey.to_xml: uniquely named, released on every exit."""
+    # the file the validators read is this conversion's own: its name comes from the unique-name API (two conversions -
+    # threads, or processes sharing the temp directory - must never share it), and it is removed on every exit
+    from ..astutil import subst_locals as _sl1
+    tox = ctx.func("pyxform.survey:Survey.to_xml", rid)
+    pcall = next((c for c in walk_own(tox.node) if isinstance(c, ast.Call) and call_name(c) == "print_xform_to_file"), None)
+    if pcall is None:
+        rule.fail("Survey.to_xml:validated file", "to_xml writes the XForm to a file for the validators", tox.loc())
+    else:
+        pexpr = kw(pcall, "path") or (pcall.args[0] if pcall.args else None)
+        resolved = _sl1(pexpr, tox.node, depth=4) if pexpr is not None else None
+        uniq = resolved is not None and any(isinstance(c, ast.Call) and call_name(c) in ("NamedTemporaryFile", "mkstemp", "TemporaryDirectory", "mkdtemp") for c in ast.walk(resolved))
+        rule.check(uniq, "Survey.to_xml:unique temp name", "the path handed to the validators comes from a unique-name temp-file API", tox.loc(pcall),
+                 why_fail=f"path = {norm(resolved)[:90] if resolved is not None else None}: a name built from the form (or constant) is shared by concurrent conversions")
+        fin = [t for t in walk_own(tox.node) if isinstance(t, ast.Try) and any(pcall is c for b in t.body for c in ast.walk(b))]
+        rel = bool(fin) and any(isinstance(c, ast.Call) and call_name(c) in ("unlink", "remove", "cleanup") for st in fin[0].finalbody for c in ast.walk(st))
+        rule.check(rel, "Survey.to_xml:released", "the file is removed in a finally clause around the write / validation", tox.loc(pcall))
 
 
 def _is_write_mode(c: ast.Call) -> bool:
